@@ -742,7 +742,7 @@ func builders() map[string]func() *sys {
 		"Value": valueSys, "Collection": collectionSys, "parentpb.Model": parentSys, "metadatapb.Model": metadataSys,
 		"enterleavesensorpb.Model": enterLeaveSys, "electricpb.Model": electricSys, "vendingpb.Model": vendingSys, "publicationpb.Model": publicationSys,
 		"openclosepb.Model(presets)": openCloseSys, "lightpb.Model(presets)": lightSys,
-		"electricpb.Model(active mode write-restricted)": electricRestrictedSys,
+		"electricpb.Model(active mode write-restricted)": electricRestrictedSys, "wastepb.Model": wasteSys,
 	}
 	for _, e := range reg.Servers {
 		e := e
